@@ -23,7 +23,7 @@ func init() {
 		Assumptions: []string{"bufio.Reader, bytes.Buffer semantics"},
 		NotDecided:  []string{"all segmentations x buffer sizes", "timing: how long a read blocks"},
 		Rules: []core.Rule{
-			{ID: "C07-R1", Title: "the read-ahead buffer over the socket outlives the call", Decides: "no byte lost when frames are coalesced into one segment", Floor: 2, Run: c07r1},
+			{ID: "C07-R1", Title: "the read-ahead buffer over the socket outlives the call", Decides: "no byte lost when frames are coalesced into one segment", Floor: 2, Run: func(c *core.Ctx) { c07r1(c); socketIsTheAcceptedOne(c) }},
 			{ID: "C07-R2", Title: "the remainder buffer is kept only while it has unread data", Decides: "no end-of-stream while the peer is connected", Floor: 2, Run: c07r2},
 			{ID: "C07-R3", Title: "no plaintext dropped on a stream-read error", Decides: "no byte lost across read time-outs", Floor: 1, Run: c07r3},
 			{ID: "C07-R4", Title: "the remainder is fetched only when none is pending", Decides: "no byte lost or reordered between messages", Floor: 1, Run: c07r4},
@@ -53,15 +53,14 @@ func c07r1(c *core.Ctx) {
 	n := 0
 	var fields []string
 	for _, f := range libFuncs(p) {
-		if !core.TypeIs(recvType(f), tConn) {
+		if f.Pkg == nil || f.Pkg.Pkg.Path() != mod+"/hap" {
 			continue
 		}
 		for _, s := range core.FindCalls(f, isBufferingCtor) {
-			if !fromRawSocket(core.Args(s)[0]) {
+			call, isCall := s.(*ssa.Call)
+			if !isCall {
 				continue
 			}
-			n++
-			call := s.(*ssa.Call)
 			stored := ""
 			for _, r := range *call.Referrers() {
 				if st, ok := r.(*ssa.Store); ok {
@@ -70,6 +69,12 @@ func c07r1(c *core.Ctx) {
 					}
 				}
 			}
+			// a reader over the socket made in a method of the connection, or one that is kept in the Connection wherever it is made
+			// (the constructor may allocate it with the connection)
+			if !(core.TypeIs(recvType(f), tConn) && fromRawSocket(core.Args(s)[0])) && stored == "" {
+				continue
+			}
+			n++
 			// the read path looks at a whole frame before it consumes it (Peek): the buffer must hold the largest well-formed frame,
 			// 2 + 1024 + 16 bytes on the wire; bufio's default is 4096
 			if g := core.Callee(s); g != nil && cn(g) == "NewReaderSize" && len(core.Args(s)) > 1 {
